@@ -201,7 +201,12 @@ class SQLLexer(Lexer):
     LESS = r'<'
     AND = r'\bAND\b'
     OR = r'\bOR\b'
-    IS_NOT = r'\bIS[\s]+NOT\b'
+    @_(r'\bIS(?:\s|/\*(?:[^*]|\*(?!/))*\*/|--[^\n]*)+NOT\b')
+    def IS_NOT(self, t):
+        # comments between the two words are skipped like everywhere else (IS /* c */ NOT NULL is not IS (NOT NULL))
+        if '/*' in t.value or '--' in t.value:
+            t.value = re.sub(r'/\*(?:[^*]|\*(?!/))*\*/|--[^\n]*', lambda m: ' ' * len(m.group(0)), t.value)
+        return t
     NOT = r'\bNOT\b'
     IS = r'\bIS\b'
     LIKE = r'\bLIKE\b'
